@@ -13,7 +13,7 @@
 
 static ref_arena RA;
 enum { D_TYPE, D_CTX, D_CONTENT, D_ENC, D_LFORM, D_IFORM, D_BW, D_PAGES, D_CODEC, D_CRC, D_STATS, D_DOFS, D_UNKNOWN, D_TFORM, D_PATTERN, D_NRG, D_UNSUP, ND };
-static const int DSZ[ND] = { 8, 8, 12, 3, 7, 7, 7, 4, 5, 2, 5, 2, 33, 4, 4, 2, 10 };
+static const int DSZ[ND] = { 8, 8, 12, 3, 7, 7, 7, 4, 5, 2, 7, 2, 33, 4, 4, 2, 10 };
 static const char* DN[ND] = { "type", "ctx", "content", "enc", "level_form", "index_form", "index_bw", "pages", "codec", "crc", "stats", "dict_offset", "unknown", "thrift_form", "pattern", "row_groups", "unsupported" };
 static const char* UNSUP[] = { "", "delta-binary-packed", "delta-length-byte-array", "delta-byte-array", "byte-stream-split", "data-page-v2", "bit-packed-levels", "codec-lzo", "codec-brotli", "codec-99" };
 
@@ -33,6 +33,9 @@ static int gen_levels(int ctx, int opt, int N, lvseq_t* out, int cap) {
 
 static const ref_stats* stat_new(void) { static ref_stats s; s.max_value = (ref_bin){ (const uint8_t*)"\xff\xff\xff\x7f", 4, true }; s.min_value = (ref_bin){ (const uint8_t*)"\x00\x00\x00\x80", 4, true }; s.has_null_count = true; s.null_count = 2; return &s; }
 static const ref_stats* stat_old(void) { static ref_stats s; s.max = (ref_bin){ (const uint8_t*)"zz", 2, true }; s.min = (ref_bin){ (const uint8_t*)"", 0, true }; s.has_distinct = true; s.distinct = 3; return &s; }
+/* long binary statistics: a page header of about 150 / 330 bytes (a reader must not assume headers fit a small fixed window) */
+static uint8_t g_longstat[200];
+static const ref_stats* stat_long(int n) { static ref_stats s[2]; ref_stats* r = &s[n > 100]; memset(g_longstat, 'm', sizeof g_longstat); r->max_value = (ref_bin){ g_longstat, n, true }; r->min_value = (ref_bin){ g_longstat, n, true }; r->has_null_count = true; r->null_count = 0; return r; }
 static const ref_stats* stat_both(void) { static ref_stats s; s.max = (ref_bin){ (const uint8_t*)"\x09", 1, true }; s.min = (ref_bin){ (const uint8_t*)"\x01", 1, true }; s.max_value = s.max; s.min_value = s.min; s.has_null_count = true; s.has_max_exact = true; s.max_exact = true; s.has_min_exact = true; return &s; }
 
 static void build(const int* ch, rfile_t* f, const lvseq_t* explicit_seq) {
@@ -57,7 +60,7 @@ static void build(const int* ch, rfile_t* f, const lvseq_t* explicit_seq) {
                           case 3: f->npages[0] = N > 8 ? 8 : N; for (int i = 0; i < f->npages[0]; i++) f->page_levels[0][i] = 1; f->page_levels[0][f->npages[0] - 1] += N - f->npages[0]; break; default: break; }
     static const int CD[] = { CODEC_NONE, CODEC_SNAPPY, CODEC_GZIP, CODEC_ZSTD, CODEC_LZ4_RAW }; f->codec = CD[ch[D_CODEC]];
     f->crc = ch[D_CRC] == 0;
-    switch (ch[D_STATS]) { case 1: f->chunk_stats[0] = stat_new(); break; case 2: f->chunk_stats[0] = stat_old(); break; case 3: f->chunk_stats[0] = stat_both(); f->page_stats[0] = stat_new(); break; case 4: f->page_stats[0] = stat_both(); break; default: break; }
+    switch (ch[D_STATS]) { case 1: f->chunk_stats[0] = stat_new(); break; case 2: f->chunk_stats[0] = stat_old(); break; case 3: f->chunk_stats[0] = stat_both(); f->page_stats[0] = stat_new(); break; case 4: f->page_stats[0] = stat_both(); break; case 5: f->page_stats[0] = stat_long(60); f->chunk_stats[0] = stat_long(60); break; case 6: f->page_stats[0] = stat_long(150); break; default: break; }
     f->dict_offset_present = ch[D_DOFS] == 0; f->data_offset_at_dict = ch[D_DOFS] == 1;
     if (ch[D_UNKNOWN]) { f->fl.unknown_kind = (ch[D_UNKNOWN] - 1) % 16 + 1; f->fl.unknown_at_end = (ch[D_UNKNOWN] - 1) / 16; }
     f->fl.tform.long_field_headers = ch[D_TFORM] & 1; f->fl.tform.long_list_headers = (ch[D_TFORM] >> 1) & 1; f->fl.created_by = "ref_pq"; f->fl.kv = ch[D_TFORM] >= 2;
